@@ -10,7 +10,7 @@ is hash order for Remove/Keep); (COMUT) the Add arm of mutate / mutate_pass_list
 shrink it; to_check pairs Add with the complement and Remove|Keep with the selection; (EXPR) polarity of the predicate per
 operation; create_from_indices builds vertices and the index remap from the same sorted unique list and keeps triangle order
 and winding; unique_vertices collects exactly the three indices of each selected face; (ENC) TriangleFilter fields private."""
-NOT_DECIDED = "the geometric predicates themselves (facing angle, parry projections)"
+NOT_DECIDED = "the values of the geometric predicates (nalgebra angle, parry projections); only which quantity is compared with which is decided"
 ASSUMPTIONS = ["HashSet::insert grows, remove/retain shrink"]
 
 F = 'geom3::mesh::filtering'
@@ -130,6 +130,19 @@ def run(cx):
                 ok += 1 if e is not None else 0
         cx.ob('EXPR', 'to_check:pairing', ok == 2 and len(rets) == 2, 'to_check evaluates the complement of the selection for Add and the selection itself for Remove|Keep',
               where=b.file, found='; '.join(show(d)[:160] for _, d in rets))
+    # facing: the criterion is the ANGLE between the face normal and the given direction (whatever the length of that direction)
+    b = cx.fn(f'{TF}::facing')
+    if b:
+        r = cx.retval(b)
+        e = match('(call *TriangleFilter::mutate (param self) (param mode) $cl)', r)
+        okf = e is not None and e['cl'][0] == 'closure'
+        if okf:
+            from vpa import inline as IN
+            v = IN.closure_apply(cx.facts, e['cl'], (('param', 2, 'i'), ('param', 3, 'm')))
+            okf = v is not None and match('(phi false (lt (call Matrix::angle (unwrap (call Triangle::normal (call TriMesh::triangle (field shape _) _))) (param normal)) (param angle)))', v) is not None
+        cx.ob('EXPR', 'facing:criterion', okf,
+              'face i passes exactly when it has a normal and angle(normal_i, direction) < angle: the angle itself (nalgebra normalises both vectors), not a dot product '
+              'against cos(angle), which depends on the length of the direction and folds angles above pi', where=b.file, found=r)
     # near_mesh: evaluated list -> pass list -> mutate_pass_list with the same mode
     b = cx.fn(f'{TF}::near_mesh')
     if b:
